@@ -19,6 +19,7 @@ import gen_common as G
 import gen_checks as GC
 import gen_main2
 import gen_plumb
+import gen_witness
 from common import coq_string, coq_list, coq_Z
 
 PID = 'C07'
@@ -201,6 +202,7 @@ def refused_oracle():
 
 
 def run(ctx):
+    proofs__ = common.proof_status_async([(FAMILY, PROPFILE)] + gen_main2.PROOFS + gen_plumb.PROOFS + gen_witness.PROOFS)      # re-checked in the background while the cases run
     out, metas = GC.run_targets(
         ctx, PID, make_targets, 40, 500, kmin=1,
         gen=lambda pg: pg.multizone(gold=(pg.rng.random() < 0.25)),
@@ -208,7 +210,7 @@ def run(ctx):
               'exogenous non-unit time-varying XR paths, 1-3 registered cross-zone gifts, 0-2 cross-zone suppliers '
               '(imports), optional gold-standard government; targets valued-zero / numeraire-zero / cross-rate '
               'definitions; plus random _SendMoney/_ReceiveMoney sequences against the Fx.v model'))
-    out.proof = common.proof_status_many([(FAMILY, PROPFILE)] + gen_main2.PROOFS + gen_plumb.PROOFS)
+    out.proof = proofs__.result()
     # (a) bookkeeping correspondence
     n = ctx.scale(300, 4000)
     cases, cmeta = [], []
